@@ -755,6 +755,23 @@ class H2Connection:
             "Send headers on stream ID %d", stream_id
         )
 
+        # We may need to send priority information. Because encoding the
+        # headers changes the compression context irreversibly, anything that
+        # can refuse the priority information has to happen before that.
+        priority_present = (
+            (priority_weight is not None) or
+            (priority_depends_on is not None) or
+            (priority_exclusive is not None)
+        )
+
+        if priority_present:
+            if not self.config.client_side:
+                raise RFC1122Error("Servers SHOULD NOT prioritize streams.")
+
+            _validate_priority(
+                stream_id, priority_weight, priority_depends_on
+            )
+
         # Check we can open the stream.
         if stream_id not in self.streams:
             max_open_streams = self.remote_settings.max_concurrent_streams
@@ -772,20 +789,10 @@ class H2Connection:
             headers, self.encoder, end_stream
         )
 
-        # We may need to send priority information.
-        priority_present = (
-            (priority_weight is not None) or
-            (priority_depends_on is not None) or
-            (priority_exclusive is not None)
-        )
-
         if priority_present:
-            if not self.config.client_side:
-                raise RFC1122Error("Servers SHOULD NOT prioritize streams.")
-
             headers_frame = frames[0]
             headers_frame.flags.add('PRIORITY')
-            frames[0] = _add_frame_priority(
+            frames[0] = _set_frame_priority(
                 headers_frame,
                 priority_weight,
                 priority_depends_on,
@@ -2011,10 +2018,19 @@ def _add_frame_priority(frame, weight=None, depends_on=None, exclusive=None):
 
     This method validates the input values.
     """
+    _validate_priority(frame.stream_id, weight, depends_on)
+    return _set_frame_priority(frame, weight, depends_on, exclusive)
+
+
+def _validate_priority(stream_id, weight=None, depends_on=None):
+    """
+    Validates priority information for a given stream, raising a
+    ProtocolError if it cannot be sent.
+    """
     # A stream may not depend on itself.
-    if depends_on == frame.stream_id:
+    if depends_on == stream_id:
         raise ProtocolError(
-            "Stream %d may not depend on itself" % frame.stream_id
+            "Stream %d may not depend on itself" % stream_id
         )
 
     # Weight must be between 1 and 256.
@@ -2023,10 +2039,17 @@ def _add_frame_priority(frame, weight=None, depends_on=None, exclusive=None):
             raise ProtocolError(
                 "Weight must be between 1 and 256, not %d" % weight
             )
-        else:
-            # Weight is an integer between 1 and 256, but the byte only allows
-            # 0 to 255: subtract one.
-            weight -= 1
+
+
+def _set_frame_priority(frame, weight=None, depends_on=None, exclusive=None):
+    """
+    Sets already-validated priority data on a given frame, applying defaults
+    for anything missing.
+    """
+    # Weight is an integer between 1 and 256, but the byte only allows
+    # 0 to 255: subtract one.
+    if weight is not None:
+        weight -= 1
 
     # Set defaults for anything not provided.
     weight = weight if weight is not None else 15
